@@ -127,12 +127,17 @@ def default_loop(mod, ctx):
             ctx.count("directed_cases")
             _run_one(mod, spec, ctx, nontrivial)
     n = ctx.plan["cases"]
+    first = None
     for idx in range(n):
         if ctx.out_of_time():
             break
         spec = mod.gen_case(ctx.rng, tier, idx)
+        if first is None:
+            first = spec
         ctx.current = spec
         _run_one(mod, spec, ctx, nontrivial)
+    if not ctx.samples and first is not None:
+        ctx.sample(first)          # a module that counts sub-evaluations itself: show at least one base case
     ctx.current = None
 
 
